@@ -20,10 +20,11 @@ class C01(PipelineCheck):
     assumptions = ['accumulators return values of the seed\'s type', 'first/last/mean(reduce) not applied to a possibly empty group',
                    'inside tee_map no completion-triggered operator after take/first',
                    'streaming scans use non-mutating accumulators (aliasing of a user-mutated accumulator is not a transparency question, DESIGN.md C01)']
-    probe_names = ('groups>=3_interleaved', 'tee_inside', 'depth>=2_tee', 'len>=4', 'typed_state', 'object_state', 'take_or_first', 'both_failed')
+    probe_names = ('values>=2**31', 'long_stream', 'groups>=3_interleaved', 'tee_inside', 'depth>=2_tee', 'len>=4', 'typed_state', 'object_state', 'take_or_first', 'both_failed')
 
     def flags(self):
-        return Flags(dual=True, no_mut_stream=True, deny=DENY)
+        # 'nreset' returns None for an int seed: outside "accumulators return values of the seed's type"
+        return Flags(dual=True, no_mut_stream=True, deny=DENY, deny_accs=('nreset',))
 
     def start_st(self):
         return St('int', False, False)
@@ -39,7 +40,7 @@ class C01(PipelineCheck):
         g = Gen(rng, weights={'tee_map': 4, 'scan': 6, 'map': 6, 'progress': 1}, max_nest=2, small=(tier == 'quick'))
         length = rng.choice([1, 2, 3, 3, 4, 5, 6])
         program = g.pipeline(self.start_st(), self.flags(), rng.choice([0, 1, 1, 2]), length)
-        events, style = gen_events(rng, parties, maxev, min_len=1, values=rng.choice(['small', 'small', 'dups', 'wide', 'inc']))
+        events, style = gen_events(rng, parties, maxev, min_len=1, values=rng.choice(['small', 'small', 'dups', 'wide', 'inc', 'huge']))
         return {'program': program, 'events': events, 'end': 'complete', 'style': style}
 
     def execute(self, case):
@@ -109,6 +110,10 @@ class C01(PipelineCheck):
                 p['depth>=2_tee'] += 1
         if len(P) >= 4:
             p['len>=4'] += 1
+        if any(e['v'] >= 2 ** 31 for e in events):
+            p['values>=2**31'] += 1
+        if len(events) >= 300:
+            p['long_stream'] += 1
         from rxsim import funcs as F
         for n in find_nodes(P, lambda x: x['op'] == 'scan'):
             if F.ACCS[n['fn']][2] in ('int', 'float', 'bool'):
